@@ -163,7 +163,7 @@ def run(tier):
             if "Location is heap block" in b:
                 tail = b.split("Location is heap block", 1)[1]
                 for fm in re.findall(r"#\d+ \S+ (\S+?):\d+", tail):
-                    if "/verif/harness" in fm:
+                    if "/harness/" in fm:
                         return False
                     if "/src/lib/" in fm:
                         return True
